@@ -18,6 +18,7 @@
     (Delivery to a machine that has ended is a no-op transition.) *)
 From MB Require Import Model.Framework.
 From MB Require Import Proofs.Tactics Proofs.ListFacts Proofs.FrameworkStructure Proofs.Signals.
+From MB Require Proofs.FrameworkCorollaries.
 Open Scope N_scope.
 
 (** the deliveries of a call, oldest first *)
@@ -94,3 +95,25 @@ Proof.
   - rewrite Hc. constructor.
 Qed.
 Print Assumptions C09_at_most_one.
+
+(** every call of every history from [fnew]: no signal is pending before it, and the statement of
+    [C09_call] holds for it ([FrameworkCorollaries.call_signals] is that conclusion, verbatim) *)
+Theorem C09_history : forall c tp t0 s0 h s outs k evs t,
+  fnew c tp t0 = Ok s0 -> run c tp s0 h = Ok (s, outs) -> nth_error h k = Some (evs, t) ->
+  exists sb sa acts, run c tp s0 (firstn k h) = Ok (sb, firstn k outs) /\
+    trigger_events c tp sb evs t = Ok (sa, acts) /\ nth_error outs k = Some acts /\
+    sigp sb = None /\ FrameworkCorollaries.call_signals sb sa.
+Proof. exact FrameworkCorollaries.signals_every_call_nth. Qed.
+Print Assumptions C09_history.
+
+Lemma C09_call_signals_unfold : forall s s', FrameworkCorollaries.call_signals s s' <->
+  (sigp s' = None /\
+   exists ev_log,
+    match join_all None (sigsets ev_log) with
+    | None => deliveries s' = []
+    | Some SigAll => deliveries s' = targets None (length (rts s)) 0
+    | Some (SigAllExcept a) =>
+        exists answered : bool,
+          deliveries s' = targets (Some a) (length (rts s)) 0 ++ (if answered then [N.of_nat a] else [])
+    end).
+Proof. intros s s'. reflexivity. Qed.
